@@ -23,9 +23,50 @@ MON = ("ticker", "change_detection", "device_order", "system_output")
 CORR = ("ticker", "sim")
 
 
+def midtick_part(tier, res, drv):
+    """interrupts that land in the MIDDLE of a tick (flat and nested), at every loop step of it, for components that
+    TAKE PART in the tick but whose inputs do not change in it - they are passed over by this tick (Skip) whatever else
+    happens, and a Skip / Input decision is never revised: `late` waits behind a slow branch whose last device reports an
+    unchanged value, `after` follows it, `quiet` is not in the tick at all"""
+    import copy
+    import monitors
+    from sim import run_scenario
+    from . import simcommon as SC
+    from .c07 import dev
+    P = 10_000_000
+
+    def const(n, ins, cost):
+        d = dev(n, ins, cost=cost)
+        d["beh"]["outs"] = [{"port": "o", "kind": "const", "v": 5}]
+        return d
+    inner = [dev("pulse", cb={"kind": "period", "p": P}, cost=50_000), dev("s1", {"i": ["pulse", "o"]}, cost=300_000),
+             const("s2", {"i": ["s1", "o"]}, 300_000), dev("late", {"i": ["s2", "o"]}, cost=20_000), dev("after", {"i": ["late", "o"]}, cost=20_000),
+             dev("quiet", cost=20_000), dev("fast", {"i": ["pulse", "o"]}, cost=20_000)]
+    scns = [{"components": copy.deepcopy(inner), "n_ticks": 3},
+            {"components": [{"name": "msys", "kind": "sys", "inputs": {}, "expose": {"y": ["after", "o"]}, "components": copy.deepcopy(inner)}, dev("out", {"i": ["msys", "y"]})], "n_ticks": 3}]
+    for si, scn in enumerate(scns):
+        base = run_scenario(scn, bus="sync")
+        mt = monitors.master_tid(base)
+        calls = [e for e in base["trace"].of("t-call") if e["tid"] == mt]
+        dones = [e for e in base["trace"].of("t-done") if e["tid"] == mt]
+        if len(calls) < 2 or len(dones) < 2:
+            res.notes.append(f"C02 mid-tick sweep: base run of shape {si} has fewer than 2 master ticks")
+            continue
+        lo, hi = calls[1]["step"], dones[1]["step"] + 2
+        for st in range(lo, hi, 1 if tier == "thorough" or hi - lo < 40 else 2):
+            for who in ("late", "after", "quiet"):
+                s2 = dict(copy.deepcopy(scn), stims=[{"step": st, "comp": who}], n_ticks=4)
+                for b in ("sync", "held"):
+                    run_ = run_scenario(s2, bus=b, seed=st)
+                    res.case(f"midtick:{si}:{st}:{who}:{b}", nontrivial=bool([e for e in run_["trace"].of("raise") if e.get("ok")]))
+                    res.count("mid-tick-interrupt")
+                    SC.check_run(s2, run_, drv, res, monitors_on=("ticker", "change_detection", "device_order"), corr=("ticker",), case_extra={"bus": b, "held_seed": st})
+
+
 def run(tier, seed, drv):
     res = simprop.generic_run(tier, seed, drv, monitors_on=MON, corr=CORR)
     direct_part(tier, random.Random(seed + 1), drv, res)
+    midtick_part(tier, res, drv)
     # tickit's own IoBox devices wired into each other (list values travel by reference): what a device "reported at its
     # previous update" must not be altered by anybody downstream
     from sim import run_scenario
